@@ -501,6 +501,22 @@ pub fn check_strict(
         if aborted_run {
           continue;
         }
+        let fragile_panic = is_positional_op(&op.kind)
+          && replace_over_cache[op.obj]
+          && !m.contains("PoisonError")
+          && !m.contains("rspack_sources_verif: precondition");
+        if fragile_panic {
+          // a composite above a re-chunking cache slices its input at
+          // positions computed for other chunk boundaries: recorded finding
+          mismatch(
+            &mut violations,
+            &mut counters,
+            judge_class(&op.kind),
+            true,
+            format!("{} panics although the same call on a cold value returns: {}", who, m),
+          );
+          continue;
+        }
         if is_overflow_panic(m) && is_positional_op(&op.kind) {
           let eobj = expectation(mode, op).obj;
           if !gated && ascii[op.obj] && ascii[eobj] {
@@ -589,6 +605,20 @@ pub fn check_strict(
         }
         let who = format!("after the history, {} on object {}", TAIL_OPS[k].label(), o);
         if let Answer::Panicked(m) = a {
+          if is_positional_op(&TAIL_OPS[k])
+            && replace_over_cache[o]
+            && !m.contains("PoisonError")
+            && !m.contains("rspack_sources_verif: precondition")
+          {
+            mismatch(
+              &mut violations,
+              &mut counters,
+              TAIL_OPS[k].class(),
+              true,
+              format!("{} panics although a cold value answers: {}", who, m),
+            );
+            continue;
+          }
           if is_overflow_panic(m) && is_positional_op(&TAIL_OPS[k]) {
             let eobj = expectation(mode, &top).obj;
             if !gated && ascii[o] && ascii[eobj] {
